@@ -17,6 +17,7 @@ This module implements the :class:`.TDMProgram` class which acts as a representa
 """
 # pylint: disable=too-many-instance-attributes,attribute-defined-outside-init
 
+import copy
 import itertools
 from operator import itemgetter
 from collections.abc import Iterable
@@ -25,7 +26,7 @@ from functools import reduce
 import numpy as np
 from strawberryfields import ops
 from strawberryfields.program import Program
-from strawberryfields.parameters import par_is_symbolic, FreeParameter
+from strawberryfields.parameters import par_is_symbolic, par_evaluate, FreeParameter
 from strawberryfields.program_utils import CircuitError
 
 
@@ -585,13 +586,30 @@ class TDMProgram(Program):
 
     def apply_op(self, cmd, modes, t):
         """Apply a particular operation on register q at timestep t."""
-        params = cmd.op.p.copy()
+        # values of the loop variables p0, p1, ... in this time bin
+        values = {name: vals[t % self.timebins] for name, vals in self.parameters.items()}
 
-        for i, _ in enumerate(params):
-            if par_is_symbolic(params[i]):
-                params[i] = self.parameters[params[i].name][t % self.timebins]
+        def substitute(par):
+            """Replace the loop variables occurring in a (possibly composite) symbolic parameter."""
+            if not par_is_symbolic(par) or not hasattr(par, "atoms"):
+                return par
+            subs = {s: values[s.name] for s in par.atoms(FreeParameter) if s.name in values}
+            if not subs:
+                return par
+            if par in subs:
+                return subs[par]
+            par = par.xreplace(subs)
+            if par_is_symbolic(par) and not par.free_symbols:
+                # nothing symbolic is left: evaluate to a number
+                par = par_evaluate(par)
+            return par
 
-        self.append(cmd.op.__class__(*params), modes)
+        # copy the operation instead of rebuilding it from its class, so that everything
+        # it carries besides the positional parameters (dagger, select, ...) is kept
+        op = copy.copy(cmd.op)
+        op.p = [substitute(par) for par in cmd.op.p]
+
+        self.append(op, modes)
 
     def assert_modes(self, device):
         """Check that the number of modes in the program is valid.
